@@ -25,11 +25,13 @@ STUBS = [
     "os.pipe / os.close / open(fd, closefd=False) as seen from xonsh.procs.pipes -> model fd table with POSIX lowest-free allocation; "
     "PipeChannel.from_pty -> from_pipe; _safe_pipe_properties -> no-op; safe_open -> model file owning one model fd",
     "signal (as seen from xonsh.procs.posix) -> handler table; subprocess.Popen -> raises the chosen exception (spawn_failure_signals only)",
+    "sigint_after_pipeline: signal (as seen from xonsh.procs.proxies) -> handler table with a recorded pthread_kill; the callable-alias stage is a model "
+    "object carrying the real ProcProxyThread.wait/_signal_int/_restore_sigint (no OS thread); iterraw's tail -> its three calls in source order",
     "SubprocSpec.run -> model process (or raises at the chosen stage); iterraw/tee_stdout -> empty; signal/terminal/history plumbing of "
     "CommandPipeline -> no-op; jobs.add_job -> no-op",
 ]
 ASSUMPTIONS = ["fd numbers are recycled lowest-first, so a second close of an already closed number may hit somebody else's descriptor"]
-OUTSIDE = ["un-reaped children, helper threads, terminal ownership, sys.std*, cwd, signal handlers of successfully started stages (OS state)",
+OUTSIDE = ["un-reaped children, helper threads, terminal ownership, sys.std*, cwd, signal handlers of external stages and of stages interrupted mid-run (OS state)",
            "descriptors released only by garbage collection (PipeChannel.__del__) count as leaked here"]
 
 OPAQUE_NUMBER_FORMAT = True
@@ -394,6 +396,120 @@ def ob_spawn_failure(exc_i: int) -> Optional[str]:
     return None
 
 
+# ----------------------------------------------------------------------------
+# 5. Ctrl-C still reaches the shell after a pipeline with callable-alias stages
+# ----------------------------------------------------------------------------
+def _sigint_after(kinds, cap):
+    """kinds: per stage 'alias' (ProcProxyThread signal discipline) or 'proc' (no handler of its own).
+    Real: CommandPipeline.__init__/end/_end/_close_prev_procs/_close_proc, ProcProxyThread.wait/_signal_int/_restore_sigint.
+    Model: the alias stage object (no OS thread; finished, joinable), the signal table, the tail of iterraw as its three calls."""
+    import xonsh.procs.proxies as PR
+
+    _install()
+    sig = _Signal()
+    reached: List = []
+    redelivered = [0]
+
+    def shell_handler(signum, frame):
+        reached.append(signum)
+
+    sig.table[2] = shell_handler
+
+    def pthread_kill(ident, signum):
+        redelivered[0] += 1
+
+    sig.pthread_kill = pthread_kill
+
+    class AliasStage(ModelProc):
+        _signal_int = PR.ProcProxyThread._signal_int
+        _restore_sigint = PR.ProcProxyThread._restore_sigint
+        wait = PR.ProcProxyThread.wait
+
+        def __init__(self, spec):
+            super().__init__(spec)
+            self._interrupted = False
+            self.old_int_handler = None
+            self.old_break_handler = None
+            # what ProcProxyThread.__init__ does on the main thread before starting the thread
+            if PR.xt.on_main_thread():
+                self.old_int_handler = PR.signal.signal(PR.signal.SIGINT, self._signal_int)
+
+        def _restore_sigbreak(self):
+            pass
+
+        def join(self, timeout=None):
+            pass
+
+        def is_alive(self):
+            return False
+
+    def spec_run(self, *, pipeline_group=None):
+        return AliasStage(self) if kinds[self.pipeline_index] == "alias" else ModelProc(self)
+
+    def iterraw_tail(self, *a, **k):
+        # the order in which CommandPipeline.iterraw finishes: upstream stages closed, then the last stage waited for
+        self._close_prev_procs()
+        self.proc.prevs_are_closed = True
+        self.proc.wait()
+        return iter(())
+
+    saved = (PR.signal, PR.xt.on_main_thread, S.SubprocSpec.run, P.CommandPipeline.iterraw, P.CommandPipeline.tee_stdout)
+    PR.signal = sig
+    PR.xt.on_main_thread = lambda: True
+    S.SubprocSpec.run = spec_run
+    P.CommandPipeline.iterraw = iterraw_tail
+    P.CommandPipeline.tee_stdout = iterraw_tail
+    cmds = []
+    for k in range(len(kinds)):
+        cmds.append([f"c{k}", "x"])
+        if k < len(kinds) - 1:
+            cmds.append("|")
+    tag = f"{' | '.join(kinds)} captured={cap!r}"
+    try:
+        specs = S.cmds_to_specs(list(cmds), captured=cap)
+        cp = P.CommandPipeline(specs) if cap != "hiddenobject" else P.HiddenCommandPipeline(specs)
+        cp.end()
+        # ---- the user presses Ctrl-C at the prompt: does the shell's own handler get the signal? ----
+        pending, steps = 1, 0
+        while pending and not reached and steps < 8:
+            pending -= 1
+            steps += 1
+            before = redelivered[0]
+            h = sig.table[2]
+            h(2, None)
+            pending += redelivered[0] - before
+    finally:
+        PR.signal, PR.xt.on_main_thread, S.SubprocSpec.run, P.CommandPipeline.iterraw, P.CommandPipeline.tee_stdout = saved
+    if not reached:
+        h = sig.table[2]
+        return (f"ctrl-c-lost: after `{tag}` finished, SIGINT is handled by {getattr(h, '__qualname__', h)} of a finished stage "
+                f"(its saved handler: {getattr(getattr(h, '__self__', None), 'old_int_handler', '?')!r}) and never reaches the shell's handler")
+    if sig.table[2] is not shell_handler:
+        return f"ctrl-c-handler-not-restored: after `{tag}` and one Ctrl-C the shell's SIGINT handler is still not installed"
+    return None
+
+
+STAGE_KINDS = ["alias", "proc"]
+
+
+def ob_sigint(nstages: int, k0: int, k1: int, k2: int, cap_i: int) -> Optional[str]:
+    if not (1 <= nstages <= 3 and 0 <= cap_i < len(CAPTURES)):
+        raise Skip()
+    ks = [k0, k1, k2]
+    for i in range(3):
+        if i < nstages:
+            if not (0 <= ks[i] < 2):
+                raise Skip()
+        elif ks[i] != 0:
+            raise Skip()
+    kinds = [_pick(STAGE_KINDS, ks[i]) for i in range(nstages)]
+    r = concretely(_sigint_after, kinds, _pick(CAPTURES, cap_i))
+    if r:
+        k, rest = r.split(":", 1)
+        return viol(k, lambda: rest.strip())
+    return None
+
+
 def _region_started(args, v):
     return v.startswith("leak-started-stage-before-failing-one")
 
@@ -414,6 +530,12 @@ OBLIGATIONS = [
                parts={"quick": [dict(nstages=k) for k in (1, 2, 3)]}, timeout={"quick": 240, "thorough": 600},
                regions={"C09-leak-when-later-stage-fails-to-start": _region_started},
                symbolic="capture kind, fault kind, faulting stage, stdin redirect"),
+    Obligation("sigint_after_pipeline", ob_sigint,
+               bounds="pipelines of 1..3 stages, each a callable-alias stage (the real SIGINT save/restore methods of ProcProxyThread on a model stage "
+                      "object that has finished) or a plain process, every capture kind, run through the real CommandPipeline end path: a Ctrl-C "
+                      "afterwards reaches the shell's own handler, which is installed again after it",
+               parts={"quick": [dict(nstages=n) for n in (1, 2, 3)]}, timeout={"quick": 120, "thorough": 120},
+               symbolic="stage kinds, capture kind"),
     Obligation("spawn_failure_signals", ob_spawn_failure,
                bounds="PopenThread construction on the main thread where subprocess.Popen raises one of 7 exception classes (OSError family, "
                       "ValueError, UnicodeEncodeError, TypeError, MemoryError): SIGINT/SIGTSTP/SIGQUIT/SIGWINCH handlers equal those before",
